@@ -6,13 +6,60 @@ ROOT = os.path.dirname(os.path.abspath(__file__))
 
 TB = ["TLC 1.8.0 + CommunityModules Json/IOUtils", "harness projection functions (harness/src)", "small-scope: names i32, integer weights"]
 
+MUT_NOTE = "Bounded: 2-5 names, weights {NaN,1,2,3,5}, attribute tags; projection through the public API (+ the read-only snapshot hook). Trusted: TLC, Json module, harness projection/canonicalisation."
+ALG_NOTE = "Small scope: all graphs of the enumerated families (<= 4-5 nodes) plus random graphs of all 8 kinds; floats are mapped to small rationals (tolerance 1e-11) before the exact comparison. Trusted: TLC, Json module, harness canonicalisation, rational reconstruction."
+
 CHECKS = {
     "C01": dict(
         level="model_checking",
         technique="TLA+ state machine (GraphMachine) model-checked by TLC for all 96 GraphSpecs; recorded call forests validated by a TLC trace monitor; TLC random walks replayed into the library",
         text="TLC exhausts the abstract mutation machine within small bounds under all 96 GraphSpecs (well-formedness, rejected-changes-nothing, append-only names); every recorded real call (exhaustive operation sequences to depth 2-3, random histories with batch forms) is checked step by step against AddEdgeRule/AddNodeRule by TLC running MonitorMut; model walks are replayed into the library and compared state by state.",
-        note="Bounded: 3-5 names, weights {NaN,1,2,3,5}, attribute tags; the projection goes through get_all_nodes/get_all_edges. Trusted: TLC, Json module, harness projection.",
-        design="4/C01"),
+        note=MUT_NOTE, design="4/C01"),
+    "C02": dict(
+        level="model_checking",
+        technique="TLC model checking of the implementation-shaped store machine (StoreMachine) + TLC trace monitor comparing the full read-API table and the hook snapshot of the private indexes with GraphQuery/GraphStore",
+        text="TLC checks for all 96 GraphSpecs that the twelve indexes, updated by the rules of creation.rs, always describe the abstract state; on recorded executions every state of the depth-2 forest and of random histories is asked every read API for every ordered pair / node / subset incl. an absent name, and TLC compares each answer and each private index with the specification.",
+        note=MUT_NOTE, design="4/C02"),
+    "C03": dict(
+        level="model_checking",
+        technique="TLC model checking of StoreMachine (InvAdjMatches) + TLC trace monitor on snapshots of successors_vec/predecessors_vec + weighted algorithm answers judged against Paths/Centrality evaluated on get_all_edges() alone",
+        text="TLC shows on the store machine that the traversal lists hold exactly the stored neighbours with the least stored weight under every duplicate policy (and finds the counterexample for the rule as pinned); recorded snapshots after every mutation and weighted Dijkstra/betweenness/closeness on duplicate-insertion histories are validated by the monitor.",
+        note=MUT_NOTE, design="4/C03"),
+    "C04": dict(
+        level="model_checking",
+        technique="TLA+ definitions (Paths: relaxation distance, tight-edge DAG path sets) model-checked against brute force; TLC-enumerated graph families replayed into the library; answers judged by a TLC trace monitor",
+        text="Every graph of the TLC-enumerated families and random graphs of all 8 kinds: single_source from every source, all_pairs, multi_source (all-paths, first-only, distance-only; hop-count and weighted incl. zero weights) are compared by TLC with Dist/ShortestPaths: reported set = reachable set, distances equal, every path valid, path set complete and duplicate-free for positive weights.",
+        note=ALG_NOTE, design="4/C04"),
+    "C05": dict(
+        level="model_checking",
+        technique="exact rational betweenness defined in TLA+ over the path sets; TLC-enumerated families + random graphs replayed; TLC trace monitor",
+        text="betweenness_centrality (weighted x normalized) of every enumerated / random graph equals the exact rational definition (sum over ordered pairs of the fraction of shortest paths through v, halving / (n-1)(n-2) conventions).",
+        note=ALG_NOTE, design="4/C05"),
+    "C06": dict(
+        level="model_checking",
+        technique="exact rational closeness defined in TLA+ over Dist; TLC-enumerated families + random graphs replayed; TLC trace monitor",
+        text="closeness_centrality (weighted x wf_improved) of every enumerated / random graph equals (r-1)/sum of incoming distances with the Wasserman-Faust factor, 0 when nothing else reaches the node.",
+        note=ALG_NOTE, design="4/C06"),
+    "C08": dict(
+        level="model_checking",
+        technique="nondeterministic TLA+ contract (Paths!SSOK: options restrict, never change) evaluated by a TLC trace monitor over the full option grid; symmetry and triangle inequality model-checked",
+        text="For every source of every enumerated / random graph the whole grid target x cutoff (below, at, between and above every distinct distance) x first_only x with_paths, plus all_pairs / multi_source variants and get_all_shortest_paths_involving, is judged by the contract; all entry points are compared with the same specification value, hence with one another.",
+        note=ALG_NOTE, design="4/C08"),
+    "C09": dict(
+        level="model_checking",
+        technique="TLC model checking of the counting definitions (handshake identities, matrix facts) on the mutation machine + TLC trace monitor on recorded query tables",
+        text="TLC checks the identities on every reachable state for all 96 GraphSpecs; every recorded count, degree, weighted degree, density, degree centrality and adjacency-matrix answer is compared with its definition and the identities are re-evaluated on the library's own numbers.",
+        note=MUT_NOTE, design="4/C09"),
+    "C10": dict(
+        level="model_checking",
+        technique="components defined in TLA+ as quotients by reachability; TLC-enumerated families + random graphs replayed (repeated calls); TLC trace monitor",
+        text="connected / weak / strong components, component counts, node_connected_component, BFS from every node and bfs_equal_size_partitions for every k are judged against the reachability definitions (partition, right relation, first element, part sizes).",
+        note=ALG_NOTE, design="4/C10"),
+    "C15": dict(
+        level="model_checking",
+        technique="TLC model checking of Subgraph/Reverse/Reweight/Collapse on the mutation machine + TLC trace monitor on derive events from every state of recorded forests",
+        text="TLC checks well-formedness, involution, nesting and weight preservation of the derived graphs on every reachable state for all 96 GraphSpecs; every recorded derive call (all subsets incl. an absent name) is compared with the specification, the source is re-projected and must be unchanged, and the derived graph's indexes and read-API table are validated.",
+        note=MUT_NOTE, design="4/C15"),
 }
 
 PENDING = {
